@@ -184,6 +184,11 @@ pub fn run_mode(env: &mut Env, c04_mode: bool) -> Outcome {
         if stage != 3 { return viol("c03/sequence", "missing/credssp-messages", format!("CredSSP stopped at stage {} of 3", stage)); }
         ctxrc.borrow_mut().probe("nla_session");
     }
+    // a message the server cannot even frame (TPKT / X.224 / MCS / BER level) is not part of any sequence; field-level
+    // complaints of the strict decoders are C04's business
+    if let Some((_, key, frame)) = srv.decode_errors.iter().find(|(_, k, _)| k.starts_with("tpkt/") || k.starts_with("x224/") || k.starts_with("mcs/") || k.starts_with("ber/")) {
+        return viol("c03/sequence", &format!("unframeable/{}", key), format!("the server cannot frame a client message: {} ; frame {}", key, crate::tape::hex_short(frame)));
+    }
     if let Some((site, detail)) = sequence_oracle(&srv, &cfg, true, expected_act) {
         return viol("c03/sequence", &site, detail);
     }
